@@ -3,7 +3,9 @@ package main
 import (
 	"archive/tar"
 	"fmt"
+	"os"
 	"path/filepath"
+	"time"
 
 	"github.com/containerd/stargz-snapshotter/fs/config"
 	"github.com/containerd/stargz-snapshotter/fs/layer"
@@ -32,6 +34,8 @@ func demoStage(r *vf.Run) {
 			{Name: ".wh..prefetch.landmark", Type: tar.TypeReg, Mode: 0o644}}, "", ".prefetch.landmark"},
 		{"whiteout of the no-prefetch landmark name in the root", []gen.Entry{
 			{Name: ".wh..no.prefetch.landmark", Type: tar.TypeReg, Mode: 0o644}}, "", ".no.prefetch.landmark"},
+		{"outside the statement (no target name): a file named exactly '.wh.'", []gen.Entry{
+			{Name: ".wh.", Type: tar.TypeReg, Mode: 0o644}}, "", ""},
 		{"control: ordinary whiteout", []gen.Entry{
 			{Name: ".wh.foo", Type: tar.TypeReg, Mode: 0o644}}, "", "foo"},
 	}
@@ -75,6 +79,37 @@ func demoStage(r *vf.Run) {
 				}
 				fmt.Printf("%-55s store=%-6s tar=[%s] %s: Readdir(%q) = %s  Lookup(%q) = %s\n", c.what, store, gen.Describe(c.ents), order, c.dir, fmtListing(ents), c.name, errno1)
 				rn, _ = l.RootNode(0) // fresh nodes (nothing memoised) for the other order
+			}
+			// the same through the kernel (FUSE mount), when available
+			if rn2, err := l.RootNode(0); err == nil {
+				mp := filepath.Join(r.Scratch, fmt.Sprintf("demo-mp-%d-%s", ci, store))
+				_ = os.MkdirAll(mp, 0o755)
+				if srv, err := mountLayer(mp, rn2, time.Second); err == nil {
+					d := filepath.Join(mp, c.dir)
+					ents, rerr := os.ReadDir(d)
+					var names []string
+					for _, e := range ents {
+						names = append(names, fmt.Sprintf("%s:%q", e.Type().String()[:1], e.Name()))
+					}
+					res := "n/a"
+					if c.name != "" {
+						_, lerr := os.Lstat(filepath.Join(d, c.name))
+						res = "OK"
+						if lerr != nil {
+							res = errText(lerr)
+						}
+					}
+					rres := "OK"
+					if rerr != nil {
+						rres = errText(rerr)
+					}
+					fmt.Printf("%-55s store=%-6s through the kernel: getdents(%q) = %v (%s)  lstat(%q) = %s\n", c.what, store, c.dir, names, rres, c.name, res)
+					if err := srv.Unmount(); err != nil {
+						forceUnmount(mp)
+					}
+				} else {
+					fmt.Println("FUSE mount unavailable:", err)
+				}
 			}
 			l.Done()
 			env.Close()
